@@ -11,6 +11,8 @@ import TraitsVerif.Lemmas.SeqLen
 import TraitsVerif.Generated.Mutators
 import TraitsVerif.Props.C05
 import TraitsVerif.Model.Nested
+import TraitsVerif.Props.C06
+import TraitsVerif.Props.C07
 namespace TraitsVerif.Props.C04
 open TraitsVerif TraitsVerif.Py TraitsVerif.Model
 variable {α : Type}
@@ -326,6 +328,60 @@ theorem C04_nested (eq : CV → CV → Bool) (sort : Nat → List CV → List CV
               rcases List.mem_or_eq_of_mem_set hz with h1 | h1
               · exact hel z h1
               · exact h1 ▸ hx'
+
+/-! ### Dict and Set traits
+
+`TraitDictObject` / `TraitSetObject` add no operation of their own: they are
+`TraitDict` / `TraitSet` whose validators are the key / value / item traits.
+The invariants are those proved with the `map` and `set` models (Props/C06,
+Props/C07); here they are lifted to every moment of every history. -/
+
+section DictSet
+variable {K V : Type} [DecidableEq K]
+
+/-- **Dict(K, V)**: at every moment of any history every key and every value is
+an output of its validator. -/
+theorem C04_dict_history (kv : Callback K K) (vv : Callback V V)
+    (ops : List (Py.Dict.Op K V)) :
+    ∀ (d : Py.Dict K V),
+      (∀ p ∈ d, Model.Map.TraitDict.ValidOut kv p.1 ∧ Model.Map.TraitDict.ValidOut vv p.2) →
+      ∀ p ∈ ops.foldl (Model.Map.TraitDict.next kv vv) d,
+        Model.Map.TraitDict.ValidOut kv p.1 ∧ Model.Map.TraitDict.ValidOut vv p.2 := by
+  induction ops with
+  | nil => intro d hv; simpa using hv
+  | cons op ops ih =>
+    intro d hv
+    simp only [List.foldl_cons]
+    exact ih _ (C06.keys_values_valid_preserved kv vv d op hv)
+
+/-- Whole-value assignment / construction of a Dict trait establishes the invariant. -/
+theorem C04_dict_assign (kv : Callback K K) (vv : Callback V V) (ps : List (K × V))
+    (d : Py.Dict K V) (h : Model.Map.TraitDict.init kv vv ps = .ok d) :
+    ∀ p ∈ d, Model.Map.TraitDict.ValidOut kv p.1 ∧ Model.Map.TraitDict.ValidOut vv p.2 :=
+  C06.keys_values_valid_init kv vv ps d h
+
+end DictSet
+
+section SetPart
+variable {β : Type} [DecidableEq β]
+
+/-- **Set(T)**: at every moment of any history every member is an output of the validator. -/
+theorem C04_set_history (v : Callback β β) (ops : List (Py.PSet.Op β)) :
+    ∀ (s : Py.PSet β), (∀ x ∈ s, Model.SetM.TraitSet.ValidOut v x) →
+      ∀ x ∈ ops.foldl (Model.SetM.TraitSet.next v) s, Model.SetM.TraitSet.ValidOut v x := by
+  induction ops with
+  | nil => intro s hv; simpa using hv
+  | cons op ops ih =>
+    intro s hv
+    simp only [List.foldl_cons]
+    exact ih _ (C07.members_valid_preserved v s op hv)
+
+/-- Whole-value assignment / construction of a Set trait establishes the invariant. -/
+theorem C04_set_assign (v : Callback β β) (xs : List β) (s : Py.PSet β)
+    (h : Model.SetM.TraitSet.init v xs = .ok s) : ∀ x ∈ s, Model.SetM.TraitSet.ValidOut v x :=
+  C07.members_valid_init v xs s h
+
+end SetPart
 
 /-! ### Non-vacuity -/
 
